@@ -123,7 +123,8 @@ def gen_param_store(rng, sol, p, apis=('cxx',), steps=60, variant='exc'):
                 n = rng.choice([0, 0, 1, 2, 3, 5, 8])
                 S.append(['setv', p, a, rng.choice(e['vecs']), n] + [hexf(exact_double(rng, -9, 9)) for _ in range(n)])
                 S.append(['getv', p, a, rng.choice(e['vecs'])])
-                if rng.random() < 0.5:      # a failing lookup right after a successful one
+                if rng.random() < 0.7:      # a failing lookup right after a successful one -- through the same interface, then the other
+                    S.append(['getv', p, a, rng.choice(badv)])
                     S.append(['getv', p, pick_api(rng, p, apis), rng.choice(badv)])
             else:
                 S.append(['getv', p, a, rng.choice(badv)])
@@ -554,7 +555,7 @@ def value_point(rng, sol, sig, vals=None):
     if sol == 'rans_sa':
         return [hexf(exact_double(rng, 0.05, 0.95))]
     if sol == 'fans_sa_steady_wall_bounded':      # x, y > 0; wall distances over two decades
-        return [hexf(exact_double(rng, 0.2, 2.0)), hexf(round(10.0 ** rng.uniform(-2.0, -0.3) * 2 ** 20) / 2.0 ** 20)][:n]     # nu_sa > 0 needs y < kappa u_tau / alpha
+        return [hexf(exact_double(rng, 0.2, 2.0)), hexf(round(10.0 ** rng.uniform(-3.3, -0.3) * 2 ** 24) / 2.0 ** 24)][:n]     # wall distances over three decades; nu_sa > 0 needs y < kappa u_tau / alpha
     if sol == 'euler_chem_1d':
         return [hexf(exact_double(rng, 0.0, 8.0))]
     if sol == 'sod_1d':
@@ -665,6 +666,11 @@ def gen_values(rng, sol, precs=('d', 'ld'), nassign=2, npts=3, evaluators=None, 
             for fn, sig in caps:
                 if rng.random() < 0.5:
                     pts.append((fn, sig, value_point(rng, sol, sig, vals), rng.randint(1, e['dim']) if 'I' in sig else None))
+        if sol == 'sod_1d' and vals.get('Gamma', 2.0) < 1.12:      # transonic rarefaction: its tail lies at 0 < x/t < u* - c* (<= 0.057)
+            for fn, sig in caps:
+                for _ in range(4):
+                    t = exact_double(rng, 0.25, 1.0)
+                    pts.append((fn, sig, [hexf(t * exact_double(rng, 0.002, 0.055)), hexf(t)], None))
         last_pts = pts[-len(caps):]
         for p in precs:
             S.append(['select', p, 'cxx', 'val' if ai % 2 == 0 else 'val2'])
@@ -688,8 +694,13 @@ def gen_values(rng, sol, precs=('d', 'ld'), nassign=2, npts=3, evaluators=None, 
     # one parameter at a time: only ONE parameter changes, then every evaluator again at the very same point -- a value
     # memoised under a key that omits that parameter (or derived from it once, at construction) shows against the oracle
     if oat and last_pts and not zero_plan and sol not in ('sod_1d',):
-        ks = list(e['pars'])
-        for k in (ks if oat >= len(ks) else rng.sample(ks, oat)):
+        # the constitutive / scalar parameters first (for the 205-parameter solution: beta, gamma, R, T_r, mu_r, ... before
+        # the modal amplitudes, frequencies and phases), then a random selection of the others
+        import re as _re
+        first = [k for k in e['pars'] if not _re.match(r'^[a-g]_', k)]; rest = [k for k in e['pars'] if k not in first]
+        rng.shuffle(first); rng.shuffle(rest)
+        ks = (first if len(first) <= 12 else []) + rest + (first if len(first) > 12 else [])
+        for k in ks[:oat]:
             nv = pick(rng, sol, k)
             if mix and k in TRANSPORT:
                 nv *= 3.0
@@ -834,6 +845,42 @@ def gen_init_orders(rng, variant='exc', alloc=False, fill=None):
     return Execution(S, variant=variant, alloc=alloc, fill=fill, label='init_orders')
 
 
+COORD_LETTERS = {'axi': 'rz', 'cart': 'xyz'}
+
+
+def gen_special_points(rng, sol, evaluators, variant='exc'):
+    """the cheap evaluators (exact fields, gradients) at the zeros and extrema of every trigonometric factor: coordinate i
+    such that a x_i / L = j / 2 (exactly, and 2^-12 beside it), for every frequency parameter a that belongs to that
+    coordinate and j = 1..4; the other coordinates random.  A rewrite with a removable singularity or a cancellation
+    (1 + cos, tan, sin/x ...) is wrong only there."""
+    e = CAT[sol]
+    vals = {k: admissible_param(rng, sol, k) for k in e['pars']}
+    lens = sorted(k for k in vals if k[0] == 'L' and vals[k] > 0)
+    letters = COORD_LETTERS['axi' if sol.startswith('axi') else 'cart']
+    nsp = e['dim'] if e['dim'] < 4 else 3
+    S = []
+    for p in ('d', 'ld'):
+        S.append(['init', p, 'cxx', 'sp', sol])
+        S += [['setp', p, 'cxx', k, hexf(vals[k])] for k in e['pars']]
+    if not lens:
+        return None
+    for fn, sig in evaluators:
+        n = sig.count('S')
+        for i in range(min(n, nsp) + (1 if n > nsp else 0)):
+            letter = letters[i] if i < nsp and i < len(letters) else 't'
+            fr = [k for k in vals if k.startswith('a_') and k.endswith(letter) and vals[k] != 0]
+            for a in fr:
+                for j in (1, 2, 3, 4):
+                    for d in (0.0, 2.0 ** -12):
+                        pt = [exact_double(rng, 0.3, 2.0) for _ in range(n)]
+                        pt[i] = vals[lens[min(i, len(lens) - 1)]] * j / (2.0 * abs(vals[a])) * (1.0 + d)
+                        for p in ('d', 'ld'):
+                            S.append(eval_line(p, 'cxx', fn, sig, [hexf(v) for v in pt], rng.randint(1, nsp) if 'I' in sig else None))
+    ex = Execution(S, variant=variant, label='special:%s' % sol)
+    ex.oracle = True
+    return ex
+
+
 def gen_default_values(rng, sol, npts=4, variant='exc', evaluators=None):
     """the library's own default parameters (what every test and example of the repository uses), every provided
     evaluator at random points, both precisions -- judged by the oracle like any other assignment"""
@@ -850,6 +897,18 @@ def gen_default_values(rng, sol, npts=4, variant='exc', evaluators=None):
             di = rng.randint(0, 20) if sol == 'cp_normal' else rng.randint(-1, e['dim'] + 2)
             for p in ('d', 'ld'):
                 S.append(eval_line(p, 'cxx', fn, sig, pt, di, cbk))
+    # ... and once more after every parameter and vector was overwritten and masa_init_param called: the defaults, all of them,
+    # are back (vectors of another length included), and the evaluators see them
+    for p in ('d', 'ld'):
+        for k in e['pars']:
+            S.append(['setp', p, 'cxx', k, hexf(exact_double(rng, 0.5, 3.0))])
+        for k in e['vecs']:
+            n = rng.choice([2, 3, 9])
+            S.append(['setv', p, 'cxx', k, n] + [hexf(exact_double(rng, -2.0, 3.0)) for _ in range(n)])
+        S.append(['initp', p, 'cxx'])
+        S += [['getv', p, 'cxx', k] for k in e['vecs']]
+        for fn, sig in caps:
+            S.append(eval_line(p, 'cxx', fn, sig, value_point(rng, sol, sig), rng.randint(0, 20) if sol == 'cp_normal' else rng.randint(-1, e['dim'] + 2), cbk))
     ex = Execution(S, variant=variant, label='defaults:%s' % sol)
     ex.oracle = True
     return ex
